@@ -389,10 +389,14 @@ def build(prop, thorough, rnd):
     single = load_domain("single")
     pair = load_domain("pair")
     triple = load_domain("triple")
-    n_tr = 6000 if thorough else 700
+    # function / method have 36 option records each: fewer descriptions per record keep the thorough tier within ~20 min
+    heavy = prop in ("C03", "C06", "C08")
+    n_tr = (1500 if heavy else 6000) if thorough else 700
     tri_s = rnd.sample(triple, min(n_tr, len(triple)))
-    wide = wide_domain(4000 if thorough else 500, rnd)
-    pair_s = pair if thorough else rnd.sample(pair, 1200)
+    wide = wide_domain((1000 if heavy else 4000) if thorough else 500, rnd)
+    pair_s = (rnd.sample(pair, 1200) if heavy else pair) if thorough else rnd.sample(pair, 1200)
+    if thorough and heavy:
+        ts = ts[:4]
     scs = []
 
     def add(table, air, actions, files=False):
@@ -406,19 +410,29 @@ def build(prop, thorough, rnd):
         def acts(kind, oo):
             return [("emit", kind, oo)] if view else [("emit", kind, oo), ("parse",)]
         for kind in kinds:
-            for o in kind_opts(kind, thorough):
+            opts = kind_opts(kind, thorough)
+            many = len(opts) > 8          # function / method in thorough: 144 option records
+            for oi, o in enumerate(opts):
                 oo = dict(o, view=view)
-                for tb in (ts if thorough else (T0, T1)):
+                for ti, tb in enumerate(ts if thorough else (T0, T1)):
+                    if many and ti > 0:
+                        continue          # every option record on the whole single-slot domain with one table ...
                     for air in single:
                         cnt += 1
                         add(tb, air, acts(kind, oo), files=bool(files_every and cnt % files_every == 0))
                 for j, air in enumerate(pair_s):
+                    if many and j % len(opts) != oi:
+                        continue          # ... and rotated over the multi-slot domains
                     tb = ts[j % len(ts)]
                     add(tb, air, acts(kind, oo))
                 for j, air in enumerate(tri_s):
-                    if (j + len(oo)) % (1 if thorough else 2) == 0:
+                    if many and j % len(opts) != oi:
+                        continue
+                    if (j + len(oo)) % (1 if thorough else 2) == 0 or many:
                         add(ts[j % len(ts)], air, acts(kind, oo))
                 for j, air in enumerate(wide):
+                    if many and j % len(opts) != oi:
+                        continue
                     cnt += 1
                     add(ts[j % len(ts)], air, acts(kind, oo), files=bool(files_every and cnt % files_every == 0))
 
